@@ -14,6 +14,7 @@ import random
 import subprocess
 import sys
 
+suite_first = False
 VERIF = os.path.dirname(os.path.dirname(os.path.abspath(__file__)))
 
 FILES = {
@@ -156,8 +157,24 @@ def plan(repo, per_file, seed):
     return out
 
 
+def suite_missing(wt, rec):
+    import re
+
+    try:
+        p = subprocess.run([os.path.join(VERIF, "tools", "baseline.sh"), wt], capture_output=True, text=True, timeout=3000)
+        m = re.search(r"missing_from_baseline=(\d+)", p.stdout)
+        rec["suite_missing"] = int(m.group(1)) if m else -1
+    except subprocess.TimeoutExpired:
+        rec["suite_missing"] = -2
+    return rec["suite_missing"]
+
+
 def main():
     args = sys.argv[1:]
+    global suite_first
+    suite_first = "--suite-first" in args
+    if suite_first:
+        args.remove("--suite-first")
     per_file, seed, only = 6, 0, None
     for flag in ("--per-file", "--seed", "--only"):
         if flag in args:
@@ -193,6 +210,8 @@ def main():
                                      env=dict(os.environ, PYTHONPATH=wt, FUNSOR_BACKEND="numpy"), capture_output=True, text=True, timeout=300)
                 if imp.returncode != 0:
                     rec["import"] = "fails"
+                elif suite_first and suite_missing(wt, rec) != 0:
+                    pass  # the repository's own tests notice this mutant: outside the class the checks are meant for
                 else:
                     for cid in FILES[path]:
                         env = dict(os.environ, FV_REPO=wt, PYTHONPATH=wt)
